@@ -285,3 +285,13 @@ func (r *Report) writeEvidence(nOK, nViol, nKnown, nAdv int) {
 	b, _ := json.MarshalIndent(ev, "", " ")
 	os.WriteFile(filepath.Join(r.Dir, "evidence", r.Property+".json"), b, 0o644)
 }
+
+// IsOpenKnown reports whether (rule,key) is listed as an open finding of this report's property.
+func (r *Report) IsOpenKnown(rule, key string) bool {
+	for _, f := range r.known.Open {
+		if f.Property == r.Property && f.Rule == rule && f.Key == key {
+			return true
+		}
+	}
+	return false
+}
